@@ -415,6 +415,120 @@ def rule_layout(crate, prop, tier):
 
 
 # ---------------------------------------------------------------------------
+RESTRICTING = {
+    "core::iter::traits::iterator::Iterator::skip", "core::iter::traits::iterator::Iterator::take",
+    "core::iter::traits::iterator::Iterator::step_by", "core::iter::traits::iterator::Iterator::filter",
+    "core::iter::traits::iterator::Iterator::take_while", "core::iter::traits::iterator::Iterator::skip_while",
+    "core::iter::traits::iterator::Iterator::filter_map", "core::iter::traits::iterator::Iterator::nth",
+    "core::iter::traits::iterator::Iterator::find", "core::iter::traits::iterator::Iterator::position",
+    "slice::split_at", "slice::split_first", "slice::split_last", "slice::windows", "slice::chunks_exact",
+    "slice::first", "slice::last", "slice::get", "slice::get_unchecked",
+}
+
+
+def restrictions_in(crate, root):
+    """calls in the family of `root` that look at only a part of a sequence: restricting iterator adaptors and
+    sub-slicing (indexing with a range other than `..`)"""
+    out = []
+    fam = [root] + [p for p in crate.fn_paths() if crate.prog.fns[p].get("root") == root and p != root]
+    for p in fam:
+        an = crate.an(p)
+        for ev in an.events:
+            if ev["k"] != "call" or not ev["key"]:
+                continue
+            if ev["key"] in RESTRICTING:
+                out.append((ev, ev["key"].split("::")[-1]))
+            if ev["key"] in ("core::ops::index::Index::index", "core::ops::index::IndexMut::index_mut") and ev["fn"]:
+                ta = ev["fn"].get("targs", [])
+                if len(ta) >= 2 and ta[1].get("k") == "adt" and ta[1].get("path", "").startswith("core::ops::range::") \
+                        and ta[1].get("name") != "RangeFull":
+                    out.append((ev, "[" + ta[1]["name"] + "]"))
+    return out
+
+
+def rule_dm_queries(crate, prop, tier):
+    """C18: eccentricities / diameter / is_connected look at every cell of the matrix: they are defined over
+    `dist.chunks(order)` rows and their maxima without any restricting adaptor or sub-slice in between"""
+    o = Obl("DM-QUERIES")
+    prog = crate.prog
+    S = "graaf::algo::distance_matrix::DistanceMatrix"
+    ECC = S + "::eccentricities"
+    IT = "core::iter::traits::iterator::Iterator::"
+    e = method_of(crate, S, "eccentricities")
+    d = method_of(crate, S, "diameter")
+    ic = method_of(crate, S, "is_connected")
+    for m, nm in ((e, "eccentricities"), (d, "diameter"), (ic, "is_connected")):
+        if not o.check(m is not None, "DistanceMatrix::" + nm, "exists", nm + " not found"):
+            continue
+        o.instances += 1
+        who = "DistanceMatrix::" + nm
+        an = crate.an(m)
+        for ev, what in restrictions_in(crate, m):
+            o.check(False, who, "partial-scan:" + what, "%s looks at only a part of the matrix (%s): an entry outside that part "
+                    "cannot influence the result" % (nm, what), ev["span"])
+        ok = None
+        if nm == "eccentricities":
+            # map(rows, |row| row.iter().max().unwrap_or(&infinity))
+            for cp in prog.children.get(m, []):
+                cl = crate.an(cp)
+                rets = [ev for ev in cl.events if ev["k"] == "return"]
+                mx = [ev for ev in cl.events if ev["k"] == "call" and ev["key"] == IT + "max"]
+                if len(rets) == 1 and len(mx) == 1:
+                    r = rets[0]["val"]
+                    src = mx[0]["args"][0]
+                    row_scan = src[0] == "call" and src[1] == "slice::iter" and src[3] and \
+                        (strip_ref(src[3][0]) == ("arg", 2) or (strip_ref(src[3][0])[0] == "at" and strip_ref(src[3][0])[1] == "A2"))
+                    ok = r[0] == "call" and r[1] == "core::option::Option::unwrap_or" and r[3][0] == mx[0]["res"] and \
+                        r[3][1][0] == "at" and r[3][1][1].endswith(".infinity") and row_scan
+        elif nm == "diameter":
+            ecc = [ev for ev in an.events if ev["k"] == "call" and prog.key_to_path.get(ev["key"]) == e]
+            mx = [ev for ev in an.events if ev["k"] == "call" and ev["key"] == IT + "max"]
+            rets = [ev for ev in an.events if ev["k"] == "return"]
+            if ecc and len(mx) == 1 and len(rets) == 1:
+                r = rets[0]["val"]
+                ok = mx[0]["args"][0] == ecc[0]["res"] and ecc[0]["args"] == [("arg", 1)] and r[0] == "call" and \
+                    r[1] == "core::option::Option::unwrap_or" and r[3][0] == mx[0]["res"] and r[3][1][0] == "at" and r[3][1][1] == "A1.infinity"
+        else:
+            ecc = [ev for ev in an.events if ev["k"] == "call" and prog.key_to_path.get(ev["key"]) == e]
+            al = [ev for ev in an.events if ev["k"] == "call" and ev["key"] == IT + "all"]
+            rets = [ev for ev in an.events if ev["k"] == "return"]
+            if ecc and len(al) == 1 and len(rets) == 1 and rets[0]["val"] == al[0]["res"]:
+                src = al[0]["args"][0]
+                if src[0] == "addr":
+                    src = crate.fx(m).iter_desc(al[0])
+                clo = al[0]["args"][1]
+                if src == ecc[0]["res"] and clo[0] == "agg" and clo[1] == "closure":
+                    cl = crate.an(clo[2])
+                    cr = [ev for ev in cl.events if ev["k"] == "return"]
+                    if len(cr) == 1:
+                        r = cr[0]["val"]
+                        neq = (r[0] == "call" and r[1] == "core::cmp::PartialEq::ne") or \
+                              (r[0] == "un" and r[1] == "Not" and r[2][0] == "call" and r[2][1] == "core::cmp::PartialEq::eq") or \
+                              (r[0] == "bin" and r[1] == "Ne")
+                        ok = neq and _mentions_infinity(cl, r)
+        if not ok:
+            o.undecide(who, nm + "-definition", "%s is not written over eccentricities() / the rows of dist.chunks(order) in a form the rule interprets" % nm)
+        else:
+            o.check(True, who, nm + "-definition", "")
+    return o.report(floors={"DistanceMatrix queries": (o.instances, 3)})
+
+
+def _mentions_infinity(cl, r):
+    """one side of the comparison is (a reference to) the captured matrix's `infinity` field"""
+    def rec(t):
+        if isinstance(t, tuple) and t:
+            if t[0] in ("at", "mem", "addr") and isinstance(t[1], str) and t[1].endswith(".infinity"):
+                return True
+            if t[0] == "at" and t[2] is None:
+                v = cl.term_of.get((t[1], t[3]))
+                if v is not None and v != t and rec(v):
+                    return True
+            return any(rec(x) for x in t if isinstance(x, tuple))
+        return False
+    return rec(r)
+
+
+# ---------------------------------------------------------------------------
 def rule_terminate(crate, prop, tier):
     o = Obl("TERMINATE")
     S = "graaf::algo::predecessor_tree::PredecessorTree"
